@@ -1,5 +1,6 @@
 import DinoProofs.Lemmas.SHEquiv
 import DinoProofs.Lemmas.SHEquivLat
+import DinoProofs.Lemmas.SHFastBlock
 
 /-!
 # C09 — the two spherical-harmonic implementations are observationally equivalent
@@ -32,6 +33,16 @@ ring of scalars (a field where the code divides).
   synthesis discard the column), `fastDD_block` (`√0 = 0`: block locality for arbitrary fast arrays).
 * `cos_lat_grad`, `div_cos_lat`, `curl_cos_lat`: `…_iota_clip` (exact), `…_iota_noclip` (equal outside
   column `L`, on the block, value in column `L`); `kCross_iota`; `integrate_pad`.
+* Composition of unclipped operators (review 2, N-C09-b; side condition `√0 = 0`, true of `numpy.sqrt`):
+  `fastCosLatGrad_block`, `fastDivCosLat_block`, `fastCurlCosLat_block`, `zeroImagDerivative_block`,
+  `kCross_block` — for EVERY array of the fast shape (not only `ι`-images) and both values of `clip` the
+  unpadded block of the fast result is the real operator applied to the unpadded block(s); the results are
+  fast-shaped (`…_fastShaped`), so the statements chain (`fastDivCosLat_fastCosLatGrad_block` / `…_iota`).
+  `fastDD_congr_eqOff`, `fastCosLatGrad_congr_eqOff`, `fastDivCosLat_congr_eqOff`,
+  `fastCurlCosLat_congr_eqOff`: "equal outside padding column `L`" is a congruence, so a composition on
+  `ι`-images equals `ι` of the reference composition on every entry outside column `L`
+  (`fastDivCosLat_fastCosLatGrad_iota_eqOff`), and row 1 / the other padding stay zero
+  (`eqOff_iota_padding_zero`).
 -/
 namespace Dino.C09
 open Finset Dino.Lin Dino.SH Dino.SHEquiv Dino.Fourier
@@ -1050,6 +1061,270 @@ theorem integrate_pad_of_rel (br bf : Basis F) (M L N J R : Nat) (hbr : Shaped b
 
 end composites
 
+/-! ## N-C09-b: block locality of `cos_lat_grad` / `div_cos_lat` / `curl_cos_lat` on ARBITRARY fast arrays
+
+The `…_iota_noclip` theorems above take `ι`-images as input, but the output of an unclipped operator is
+not an `ι`-image (padding column `L`).  The theorems of this section hold for **every** array of the fast
+shape — whatever it holds in row 1, the padding rows and the padding columns — and for both values of
+`clip`: the unpadded block `unIota (2M) L` of the fast result is the real operator applied to the unpadded
+block(s) of the input(s).  Side condition: `sqrt 0 = 0` (true of `numpy.sqrt`), which makes the masked
+recurrence weight `a_fast[·][L]` vanish (`fastDD_block`).  As the results are again fast-shaped
+(`…_fastShaped`), the statements compose to any depth; `fastDivCosLat_fastCosLatGrad_block`,
+`fastCurlCosLat_fastCosLatGrad_block` and their `…_iota` corollaries spell out the two-fold case. -/
+section blocks
+variable {F : Type} [Field F]
+
+theorem fastCosLatGrad_fastShaped (sqrt : F → F) (M L pr pc : Nat) (hM : 1 ≤ M) (r : F) (c : Bool)
+    (y : List (List F)) (hy : FastShaped M L pr pc y) :
+    FastShaped M L pr pc (fastCosLatGrad sqrt M L pr pc r c y).1 ∧
+    FastShaped M L pr pc (fastCosLatGrad sqrt M L pr pc r c y).2 := by
+  simp only [fastCosLatGrad, fastCosLatDDlat_eq]
+  exact ⟨clipIf_fastShaped M L pr pc c _
+      (divAll_fastShaped M L pr pc _ r (zeroImagDerivative_fastShaped M L pr pc y hy)),
+    clipIf_fastShaped M L pr pc c _
+      (divAll_fastShaped M L pr pc _ r (fastDD_fastShaped _ _ sqrt M L pr pc hM y hy))⟩
+
+theorem fastDivCosLat_fastShaped (sqrt : F → F) (M L pr pc : Nat) (hM : 1 ≤ M) (r : F) (c : Bool)
+    (u v : List (List F)) (hu : FastShaped M L pr pc u) (hv : FastShaped M L pr pc v) :
+    FastShaped M L pr pc (fastDivCosLat sqrt M L pr pc r c u v) := by
+  simp only [fastDivCosLat, fastSecLatDDlatCos2_eq]
+  exact clipIf_fastShaped M L pr pc c _ (divAll_fastShaped M L pr pc _ r
+    (madd_fastShaped M L pr pc _ _ (zeroImagDerivative_fastShaped M L pr pc u hu)
+      (fastDD_fastShaped _ _ sqrt M L pr pc hM v hv)))
+
+theorem fastCurlCosLat_fastShaped (sqrt : F → F) (M L pr pc : Nat) (hM : 1 ≤ M) (r : F) (c : Bool)
+    (u v : List (List F)) (hu : FastShaped M L pr pc u) (hv : FastShaped M L pr pc v) :
+    FastShaped M L pr pc (fastCurlCosLat sqrt M L pr pc r c u v) := by
+  simp only [fastCurlCosLat, fastSecLatDDlatCos2_eq]
+  exact clipIf_fastShaped M L pr pc c _ (divAll_fastShaped M L pr pc _ r
+    (msub_fastShaped M L pr pc _ _ (zeroImagDerivative_fastShaped M L pr pc v hv)
+      (fastDD_fastShaped _ _ sqrt M L pr pc hM u hu)))
+
+/-- **`d_dlon`, block locality**: the unpadded block of the fast longitude derivative of any fast-shaped
+ array is the real longitude derivative of its unpadded block -/
+theorem zeroImagDerivative_block (M L pr pc : Nat) (hM : 1 ≤ M) (y : List (List F))
+    (hy : FastShaped M L pr pc y) :
+    unIota (2 * M) L (zeroImagDerivative y (L + pc) 0) = realDerivative (unIota (2 * M) L y) L :=
+  Dino.SHEquiv.zeroImagDerivative_block M L pr pc hM y hy
+
+/-- **`cos_lat_grad`, block locality** (any `clip`, any fast-shaped `y`; `√0 = 0`) -/
+theorem fastCosLatGrad_block (sqrt : F → F) (hs : sqrt 0 = 0) (M L pr pc : Nat) (hM : 1 ≤ M) (r : F)
+    (c : Bool) (y : List (List F)) (hy : FastShaped M L pr pc y) :
+    unIota (2 * M) L (fastCosLatGrad sqrt M L pr pc r c y).1
+        = (realCosLatGrad sqrt M L r c (unIota (2 * M) L y)).1 ∧
+    unIota (2 * M) L (fastCosLatGrad sqrt M L pr pc r c y).2
+        = (realCosLatGrad sqrt M L r c (unIota (2 * M) L y)).2 := by
+  have hD := zeroImagDerivative_fastShaped M L pr pc y hy
+  have hS := fastDD_fastShaped (fun l => (l : F) + 1) (fun l => -(l : F)) sqrt M L pr pc hM y hy
+  simp only [fastCosLatGrad, realCosLatGrad, fastCosLatDDlat_eq, realCosLatDDlat_eq]
+  constructor
+  · rw [unIota_clipIf M L pr pc hM c _ (divAll_fastShaped M L pr pc _ r hD),
+      unIota_divAll M L pr pc hM _ r hD, Dino.SHEquiv.zeroImagDerivative_block M L pr pc hM y hy]
+  · rw [unIota_clipIf M L pr pc hM c _ (divAll_fastShaped M L pr pc _ r hS),
+      unIota_divAll M L pr pc hM _ r hS, fastDD_block _ _ sqrt hs M L pr pc hM y hy.1 hy.2]
+
+/-- **`div_cos_lat`, block locality** (any `clip`, any fast-shaped `u`, `v`; `√0 = 0`) -/
+theorem fastDivCosLat_block (sqrt : F → F) (hs : sqrt 0 = 0) (M L pr pc : Nat) (hM : 1 ≤ M) (r : F)
+    (c : Bool) (u v : List (List F)) (hu : FastShaped M L pr pc u) (hv : FastShaped M L pr pc v) :
+    unIota (2 * M) L (fastDivCosLat sqrt M L pr pc r c u v)
+      = realDivCosLat sqrt M L r c (unIota (2 * M) L u) (unIota (2 * M) L v) := by
+  have hD := zeroImagDerivative_fastShaped M L pr pc u hu
+  have hS := fastDD_fastShaped (fun l => (l : F) - 1) (fun l => -((l : F) + (1 + 1))) sqrt M L pr pc hM v hv
+  have hA := madd_fastShaped M L pr pc _ _ hD hS
+  simp only [fastDivCosLat, realDivCosLat, fastSecLatDDlatCos2_eq, realSecLatDDlatCos2_eq]
+  rw [unIota_clipIf M L pr pc hM c _ (divAll_fastShaped M L pr pc _ r hA),
+    unIota_divAll M L pr pc hM _ r hA, unIota_madd M L pr pc hM _ _ hD hS,
+    Dino.SHEquiv.zeroImagDerivative_block M L pr pc hM u hu,
+    fastDD_block _ _ sqrt hs M L pr pc hM v hv.1 hv.2]
+
+/-- **`curl_cos_lat`, block locality** (any `clip`, any fast-shaped `u`, `v`; `√0 = 0`) -/
+theorem fastCurlCosLat_block (sqrt : F → F) (hs : sqrt 0 = 0) (M L pr pc : Nat) (hM : 1 ≤ M) (r : F)
+    (c : Bool) (u v : List (List F)) (hu : FastShaped M L pr pc u) (hv : FastShaped M L pr pc v) :
+    unIota (2 * M) L (fastCurlCosLat sqrt M L pr pc r c u v)
+      = realCurlCosLat sqrt M L r c (unIota (2 * M) L u) (unIota (2 * M) L v) := by
+  have hD := zeroImagDerivative_fastShaped M L pr pc v hv
+  have hS := fastDD_fastShaped (fun l => (l : F) - 1) (fun l => -((l : F) + (1 + 1))) sqrt M L pr pc hM u hu
+  have hA := msub_fastShaped M L pr pc _ _ hD hS
+  simp only [fastCurlCosLat, realCurlCosLat, fastSecLatDDlatCos2_eq, realSecLatDDlatCos2_eq]
+  rw [unIota_clipIf M L pr pc hM c _ (divAll_fastShaped M L pr pc _ r hA),
+    unIota_divAll M L pr pc hM _ r hA, unIota_msub M L pr pc hM _ _ hD hS,
+    Dino.SHEquiv.zeroImagDerivative_block M L pr pc hM v hv,
+    fastDD_block _ _ sqrt hs M L pr pc hM u hu.1 hu.2]
+
+/-- `k_cross`, block locality -/
+theorem kCross_block (M L pr pc : Nat) (hM : 1 ≤ M) (u v : List (List F)) (hv : FastShaped M L pr pc v) :
+    unIota (2 * M) L (kCross u v).1 = (kCross (unIota (2 * M) L u) (unIota (2 * M) L v)).1 ∧
+    unIota (2 * M) L (kCross u v).2 = (kCross (unIota (2 * M) L u) (unIota (2 * M) L v)).2 := by
+  simp only [kCross]
+  exact ⟨unIota_mneg M L pr pc hM v hv, trivial⟩
+
+/-- **two unclipped (or clipped) operators in a row**: `div_cos_lat(cos_lat_grad(y, c₁), c₂)` on any
+ fast-shaped `y` — in particular the value that `cos_lat_grad(·, clip=False)` leaves in padding column `L`
+ does not reach the unpadded block of the divergence -/
+theorem fastDivCosLat_fastCosLatGrad_block (sqrt : F → F) (hs : sqrt 0 = 0) (M L pr pc : Nat) (hM : 1 ≤ M)
+    (r : F) (c₁ c₂ : Bool) (y : List (List F)) (hy : FastShaped M L pr pc y) :
+    unIota (2 * M) L (fastDivCosLat sqrt M L pr pc r c₂ (fastCosLatGrad sqrt M L pr pc r c₁ y).1
+        (fastCosLatGrad sqrt M L pr pc r c₁ y).2)
+      = realDivCosLat sqrt M L r c₂ (realCosLatGrad sqrt M L r c₁ (unIota (2 * M) L y)).1
+          (realCosLatGrad sqrt M L r c₁ (unIota (2 * M) L y)).2 := by
+  obtain ⟨h1, h2⟩ := fastCosLatGrad_fastShaped sqrt M L pr pc hM r c₁ y hy
+  obtain ⟨e1, e2⟩ := fastCosLatGrad_block sqrt hs M L pr pc hM r c₁ y hy
+  rw [fastDivCosLat_block sqrt hs M L pr pc hM r c₂ _ _ h1 h2, e1, e2]
+
+/-- `curl_cos_lat(cos_lat_grad(y, c₁), c₂)` on any fast-shaped `y` -/
+theorem fastCurlCosLat_fastCosLatGrad_block (sqrt : F → F) (hs : sqrt 0 = 0) (M L pr pc : Nat) (hM : 1 ≤ M)
+    (r : F) (c₁ c₂ : Bool) (y : List (List F)) (hy : FastShaped M L pr pc y) :
+    unIota (2 * M) L (fastCurlCosLat sqrt M L pr pc r c₂ (fastCosLatGrad sqrt M L pr pc r c₁ y).1
+        (fastCosLatGrad sqrt M L pr pc r c₁ y).2)
+      = realCurlCosLat sqrt M L r c₂ (realCosLatGrad sqrt M L r c₁ (unIota (2 * M) L y)).1
+          (realCosLatGrad sqrt M L r c₁ (unIota (2 * M) L y)).2 := by
+  obtain ⟨h1, h2⟩ := fastCosLatGrad_fastShaped sqrt M L pr pc hM r c₁ y hy
+  obtain ⟨e1, e2⟩ := fastCosLatGrad_block sqrt hs M L pr pc hM r c₁ y hy
+  rw [fastCurlCosLat_block sqrt hs M L pr pc hM r c₂ _ _ h1 h2, e1, e2]
+
+/-- **the `clip=False` composites compose**: on an `ι`-image the unpadded block of
+ `div_cos_lat(cos_lat_grad(ι x, c₁), c₂)` is the reference `div_cos_lat(cos_lat_grad(x, c₁), c₂)`, for all
+ four combinations of the clip flags (`c₁ = c₂ = false` is the case the `…_iota_noclip` theorems alone do
+ not give) -/
+theorem fastDivCosLat_fastCosLatGrad_iota (sqrt : F → F) (hs : sqrt 0 = 0) (M L pr pc : Nat) (hM : 1 ≤ M)
+    (r : F) (c₁ c₂ : Bool) (x : List (List F)) (hx : RealShaped M L x) :
+    unIota (2 * M) L (fastDivCosLat sqrt M L pr pc r c₂
+        (fastCosLatGrad sqrt M L pr pc r c₁ (iota L pr pc x)).1
+        (fastCosLatGrad sqrt M L pr pc r c₁ (iota L pr pc x)).2)
+      = realDivCosLat sqrt M L r c₂ (realCosLatGrad sqrt M L r c₁ x).1
+          (realCosLatGrad sqrt M L r c₁ x).2 := by
+  rw [fastDivCosLat_fastCosLatGrad_block sqrt hs M L pr pc hM r c₁ c₂ _ (iota_fastShaped M L pr pc hM x hx),
+    unIota_iota M L pr pc hM x hx.1 hx.2]
+
+theorem fastCurlCosLat_fastCosLatGrad_iota (sqrt : F → F) (hs : sqrt 0 = 0) (M L pr pc : Nat) (hM : 1 ≤ M)
+    (r : F) (c₁ c₂ : Bool) (x : List (List F)) (hx : RealShaped M L x) :
+    unIota (2 * M) L (fastCurlCosLat sqrt M L pr pc r c₂
+        (fastCosLatGrad sqrt M L pr pc r c₁ (iota L pr pc x)).1
+        (fastCosLatGrad sqrt M L pr pc r c₁ (iota L pr pc x)).2)
+      = realCurlCosLat sqrt M L r c₂ (realCosLatGrad sqrt M L r c₁ x).1
+          (realCosLatGrad sqrt M L r c₁ x).2 := by
+  rw [fastCurlCosLat_fastCosLatGrad_block sqrt hs M L pr pc hM r c₁ c₂ _ (iota_fastShaped M L pr pc hM x hx),
+    unIota_iota M L pr pc hM x hx.1 hx.2]
+
+/-! ### the whole array, not only the block: the deviation stays confined to padding column `L`
+
+`EqOff L A B` — equal outside column `L` — is a congruence for the three operators (`√0 = 0`), so every
+composition of them applied to `ι`-images is equal to `ι` of the reference composition on every entry
+outside column `L`; in particular row 1, the padding rows and the padding columns beyond `L` stay zero
+(`eqOff_iota_padding_zero`). -/
+
+theorem realCosLatGrad_realShaped (sqrt : F → F) (M L : Nat) (hM : 1 ≤ M) (r : F) (c : Bool)
+    (x : List (List F)) (hx : RealShaped M L x) :
+    RealShaped M L (realCosLatGrad sqrt M L r c x).1 ∧ RealShaped M L (realCosLatGrad sqrt M L r c x).2 := by
+  simp only [realCosLatGrad, realCosLatDDlat_eq]
+  exact ⟨clipIf_realShaped M L c _ (divAll_realShaped M L _ r (realDerivative_realShaped M L x hx)),
+    clipIf_realShaped M L c _ (divAll_realShaped M L _ r (realDD_realShaped _ _ sqrt M L hM x hx))⟩
+
+theorem fastCosLatGrad_congr_eqOff (sqrt : F → F) (hs : sqrt 0 = 0) (M L pr pc : Nat) (hM : 1 ≤ M) (r : F)
+    (c : Bool) (y y' : List (List F)) (hy : FastShaped M L pr pc y) (hy' : FastShaped M L pr pc y')
+    (h : EqOff L y y') :
+    EqOff L (fastCosLatGrad sqrt M L pr pc r c y).1 (fastCosLatGrad sqrt M L pr pc r c y').1 ∧
+    EqOff L (fastCosLatGrad sqrt M L pr pc r c y).2 (fastCosLatGrad sqrt M L pr pc r c y').2 := by
+  simp only [fastCosLatGrad, fastCosLatDDlat_eq]
+  exact ⟨((h.zeroImagDerivative (by rw [hy.1, hy'.1]) (L + pc) 0).divAll r).clipIf c L pc,
+    ((fastDD_congr_eqOff _ _ sqrt hs M L pr pc hM y y' hy hy' h).divAll r).clipIf c L pc⟩
+
+theorem fastDivCosLat_congr_eqOff (sqrt : F → F) (hs : sqrt 0 = 0) (M L pr pc : Nat) (hM : 1 ≤ M) (r : F)
+    (c : Bool) (u u' v v' : List (List F)) (hu : FastShaped M L pr pc u) (hu' : FastShaped M L pr pc u')
+    (hv : FastShaped M L pr pc v) (hv' : FastShaped M L pr pc v') (h1 : EqOff L u u') (h2 : EqOff L v v') :
+    EqOff L (fastDivCosLat sqrt M L pr pc r c u v) (fastDivCosLat sqrt M L pr pc r c u' v') := by
+  have hD := zeroImagDerivative_fastShaped M L pr pc u hu
+  have hD' := zeroImagDerivative_fastShaped M L pr pc u' hu'
+  have hS := fastDD_fastShaped (fun l => (l : F) - 1) (fun l => -((l : F) + (1 + 1))) sqrt M L pr pc hM v hv
+  have hS' := fastDD_fastShaped (fun l => (l : F) - 1) (fun l => -((l : F) + (1 + 1))) sqrt M L pr pc hM v' hv'
+  simp only [fastDivCosLat, fastSecLatDDlatCos2_eq]
+  exact (((h1.zeroImagDerivative (by rw [hu.1, hu'.1]) (L + pc) 0).madd
+    (fastDD_congr_eqOff _ _ sqrt hs M L pr pc hM v v' hv hv' h2) (L + pc) (by rw [hD.1, hS.1])
+    (by rw [hD'.1, hS'.1]) hD.2 hS.2 hD'.2 hS'.2).divAll r).clipIf c L pc
+
+theorem fastCurlCosLat_congr_eqOff (sqrt : F → F) (hs : sqrt 0 = 0) (M L pr pc : Nat) (hM : 1 ≤ M) (r : F)
+    (c : Bool) (u u' v v' : List (List F)) (hu : FastShaped M L pr pc u) (hu' : FastShaped M L pr pc u')
+    (hv : FastShaped M L pr pc v) (hv' : FastShaped M L pr pc v') (h1 : EqOff L u u') (h2 : EqOff L v v') :
+    EqOff L (fastCurlCosLat sqrt M L pr pc r c u v) (fastCurlCosLat sqrt M L pr pc r c u' v') := by
+  have hD := zeroImagDerivative_fastShaped M L pr pc v hv
+  have hD' := zeroImagDerivative_fastShaped M L pr pc v' hv'
+  have hS := fastDD_fastShaped (fun l => (l : F) - 1) (fun l => -((l : F) + (1 + 1))) sqrt M L pr pc hM u hu
+  have hS' := fastDD_fastShaped (fun l => (l : F) - 1) (fun l => -((l : F) + (1 + 1))) sqrt M L pr pc hM u' hu'
+  simp only [fastCurlCosLat, fastSecLatDDlatCos2_eq]
+  exact (((h2.zeroImagDerivative (by rw [hv.1, hv'.1]) (L + pc) 0).msub
+    (fastDD_congr_eqOff _ _ sqrt hs M L pr pc hM u u' hu hu' h1) (L + pc) (by rw [hD.1, hS.1])
+    (by rw [hD'.1, hS'.1]) hD.2 hS.2 hD'.2 hS'.2).divAll r).clipIf c L pc
+
+/-- the three single-application theorems with the clip flag as a parameter -/
+theorem fastCosLatGrad_iota_eqOff (sqrt : F → F) (M L pr pc : Nat) (hM : 1 ≤ M) (r : F) (c : Bool)
+    (x : List (List F)) (hx : RealShaped M L x) :
+    EqOff L (fastCosLatGrad sqrt M L pr pc r c (iota L pr pc x)).1
+        (iota L pr pc (realCosLatGrad sqrt M L r c x).1) ∧
+    EqOff L (fastCosLatGrad sqrt M L pr pc r c (iota L pr pc x)).2
+        (iota L pr pc (realCosLatGrad sqrt M L r c x).2) := by
+  cases c
+  · have h := fastCosLatGrad_iota_noclip sqrt M L pr pc hM r x hx
+    exact ⟨EqOff.of_eq h.1, h.2.1⟩
+  · have h := fastCosLatGrad_iota_clip sqrt M L pr pc hM r x hx
+    exact ⟨EqOff.of_eq (congrArg Prod.fst h), EqOff.of_eq (congrArg Prod.snd h)⟩
+
+theorem fastDivCosLat_iota_eqOff (sqrt : F → F) (M L pr pc : Nat) (hM : 1 ≤ M) (r : F) (c : Bool)
+    (u v : List (List F)) (hu : RealShaped M L u) (hv : RealShaped M L v) :
+    EqOff L (fastDivCosLat sqrt M L pr pc r c (iota L pr pc u) (iota L pr pc v))
+      (iota L pr pc (realDivCosLat sqrt M L r c u v)) := by
+  cases c
+  · exact (fastDivCosLat_iota_noclip sqrt M L pr pc hM r u v hu hv).1
+  · exact EqOff.of_eq (fastDivCosLat_iota_clip sqrt M L pr pc hM r u v hu hv)
+
+theorem fastCurlCosLat_iota_eqOff (sqrt : F → F) (M L pr pc : Nat) (hM : 1 ≤ M) (r : F) (c : Bool)
+    (u v : List (List F)) (hu : RealShaped M L u) (hv : RealShaped M L v) :
+    EqOff L (fastCurlCosLat sqrt M L pr pc r c (iota L pr pc u) (iota L pr pc v))
+      (iota L pr pc (realCurlCosLat sqrt M L r c u v)) := by
+  cases c
+  · exact (fastCurlCosLat_iota_noclip sqrt M L pr pc hM r u v hu hv).1
+  · exact EqOff.of_eq (fastCurlCosLat_iota_clip sqrt M L pr pc hM r u v hu hv)
+
+/-- an array equal to an `ι`-image outside column `L` is zero in row 1, in the padding rows and in the
+ padding columns beyond `L` -/
+theorem eqOff_iota_padding_zero (M L pr pc : Nat) (hM : 1 ≤ M) (A z : List (List F)) (hz : RealShaped M L z)
+    (h : EqOff L A (iota L pr pc z)) (i l : Nat) (ho : l ≠ L ∧ (i = 1 ∨ 2 * M ≤ i ∨ L < l)) :
+    ent2 A i l = 0 := by
+  rw [h i l ho.1]
+  exact ent2_iota_outside M L pr pc hM z hz i l (by omega)
+
+/-- **two operators in a row, every entry**: `div_cos_lat(cos_lat_grad(ι x, c₁), c₂)` equals
+ `ι(div_cos_lat(cos_lat_grad(x, c₁), c₂))` outside padding column `L`, for all four combinations of the
+ clip flags -/
+theorem fastDivCosLat_fastCosLatGrad_iota_eqOff (sqrt : F → F) (hs : sqrt 0 = 0) (M L pr pc : Nat)
+    (hM : 1 ≤ M) (r : F) (c₁ c₂ : Bool) (x : List (List F)) (hx : RealShaped M L x) :
+    EqOff L (fastDivCosLat sqrt M L pr pc r c₂ (fastCosLatGrad sqrt M L pr pc r c₁ (iota L pr pc x)).1
+        (fastCosLatGrad sqrt M L pr pc r c₁ (iota L pr pc x)).2)
+      (iota L pr pc (realDivCosLat sqrt M L r c₂ (realCosLatGrad sqrt M L r c₁ x).1
+        (realCosLatGrad sqrt M L r c₁ x).2)) := by
+  have hX := iota_fastShaped M L pr pc hM x hx
+  obtain ⟨f1, f2⟩ := fastCosLatGrad_fastShaped sqrt M L pr pc hM r c₁ _ hX
+  obtain ⟨g1, g2⟩ := realCosLatGrad_realShaped sqrt M L hM r c₁ x hx
+  obtain ⟨e1, e2⟩ := fastCosLatGrad_iota_eqOff sqrt M L pr pc hM r c₁ x hx
+  exact (fastDivCosLat_congr_eqOff sqrt hs M L pr pc hM r c₂ _ _ _ _ f1 (iota_fastShaped M L pr pc hM _ g1)
+    f2 (iota_fastShaped M L pr pc hM _ g2) e1 e2).trans
+    (fastDivCosLat_iota_eqOff sqrt M L pr pc hM r c₂ _ _ g1 g2)
+
+theorem fastCurlCosLat_fastCosLatGrad_iota_eqOff (sqrt : F → F) (hs : sqrt 0 = 0) (M L pr pc : Nat)
+    (hM : 1 ≤ M) (r : F) (c₁ c₂ : Bool) (x : List (List F)) (hx : RealShaped M L x) :
+    EqOff L (fastCurlCosLat sqrt M L pr pc r c₂ (fastCosLatGrad sqrt M L pr pc r c₁ (iota L pr pc x)).1
+        (fastCosLatGrad sqrt M L pr pc r c₁ (iota L pr pc x)).2)
+      (iota L pr pc (realCurlCosLat sqrt M L r c₂ (realCosLatGrad sqrt M L r c₁ x).1
+        (realCosLatGrad sqrt M L r c₁ x).2)) := by
+  have hX := iota_fastShaped M L pr pc hM x hx
+  obtain ⟨f1, f2⟩ := fastCosLatGrad_fastShaped sqrt M L pr pc hM r c₁ _ hX
+  obtain ⟨g1, g2⟩ := realCosLatGrad_realShaped sqrt M L hM r c₁ x hx
+  obtain ⟨e1, e2⟩ := fastCosLatGrad_iota_eqOff sqrt M L pr pc hM r c₁ x hx
+  exact (fastCurlCosLat_congr_eqOff sqrt hs M L pr pc hM r c₂ _ _ _ _ f1 (iota_fastShaped M L pr pc hM _ g1)
+    f2 (iota_fastShaped M L pr pc hM _ g2) e1 e2).trans
+    (fastCurlCosLat_iota_eqOff sqrt M L pr pc hM r c₂ _ _ g1 g2)
+
+end blocks
+
 /-! ## non-vacuity: a concrete pair of bases over ℚ
 
 `M = 2, L = 2, N = 3, J = 2`, paddings `(pn, pr, pj, pc) = (1, 2, 1, 1)` (so `H = 3`): the "cosine"
@@ -1252,6 +1527,91 @@ example : integrate [1 / 2, 2 / 3, 5] (4 : ℚ) (padNodal 1 1 2 zQ) = integrate 
 example : integrate wQ (4 : ℚ) zQ = 86 / 3 := by
   simp [integrate, dotv, wQ, zQ]
   norm_num
+
+/-! ### N-C09-b instantiated: block locality of `div_cos_lat` / `curl_cos_lat` / `cos_lat_grad` on arrays
+that are NOT `ι`-images (junk in row 1, in the padding rows and in the padding column), `clip=False` -/
+
+def y2Q : List (List ℚ) := [[2, -1, 4], [5, 5, 5], [0, 7, -3], [1, 1, 6], [2, 3, 4], [-1, -2, -3]]
+theorem yQ_fast : FastShaped 2 2 2 1 yQ := ⟨rfl, by decide⟩
+theorem y2Q_fast : FastShaped 2 2 2 1 y2Q := ⟨rfl, by decide⟩
+
+/-- neither array is an `ι`-image -/
+example : yQ ≠ iota 2 2 1 (unIota (2 * 2) 2 yQ) ∧ y2Q ≠ iota 2 2 1 (unIota (2 * 2) 2 y2Q) := by decide
+
+example : unIota (2 * 2) 2 yQ = xQ ∧ unIota (2 * 2) 2 y2Q = vQ := by decide
+
+/-- `fastDivCosLat_block`, every hypothesis discharged (`idQ 0 = 0` is `rfl`) -/
+example : unIota (2 * 2) 2 (fastDivCosLat idQ 2 2 2 1 (5 / 2) false yQ y2Q)
+    = realDivCosLat idQ 2 2 (5 / 2) false (unIota (2 * 2) 2 yQ) (unIota (2 * 2) 2 y2Q) :=
+  fastDivCosLat_block idQ rfl 2 2 2 1 (by omega) (5 / 2) false yQ y2Q yQ_fast y2Q_fast
+
+/-- the fast result itself is full of junk outside the block (so the statement is not about an `ι`-image
+ on either side); its block is `realDivCosLat … xQ vQ = [[0, -8/15], [2, 12/5], [-6/5, -8/5]]` (above) -/
+example : fastDivCosLat idQ 2 2 2 1 (5 / 2) false yQ y2Q
+    = [[0, -8 / 15, 8 / 25], [0, 0, 0], [2, 12 / 5, 48 / 25], [-6 / 5, -8 / 5, -96 / 25],
+       [36 / 5, 36 / 5, 36 / 5], [-32 / 5, -32 / 5, -32 / 5]] := by decide +kernel
+
+example : unIota (2 * 2) 2 (fastCurlCosLat idQ 2 2 2 1 (5 / 2) false yQ y2Q)
+    = realCurlCosLat idQ 2 2 (5 / 2) false (unIota (2 * 2) 2 yQ) (unIota (2 * 2) 2 y2Q) :=
+  fastCurlCosLat_block idQ rfl 2 2 2 1 (by omega) (5 / 2) false yQ y2Q yQ_fast y2Q_fast
+
+example : realCurlCosLat idQ 2 2 (5 / 2) false xQ vQ = [[0, 4 / 15], [2 / 5, 2 / 5], [0, -14 / 5]] := by
+  decide +kernel
+
+example : unIota (2 * 2) 2 (fastCosLatGrad idQ 2 2 2 1 (5 / 2) false yQ).2
+    = (realCosLatGrad idQ 2 2 (5 / 2) false (unIota (2 * 2) 2 yQ)).2 :=
+  (fastCosLatGrad_block idQ rfl 2 2 2 1 (by omega) (5 / 2) false yQ yQ_fast).2
+
+/-- two unclipped operators in a row on an `ι`-image: the intermediate result is not an `ι`-image
+ (padding column `L = 2` holds `-16/75, -8/25, -12/25`) … -/
+example : (fastCosLatGrad idQ 2 2 2 1 (5 / 2) false (iota 2 2 1 xQ)).2
+    = [[8 / 15, 0, -16 / 75], [0, 0, 0], [0, 0, -8 / 25], [0, 0, -12 / 25], [0, 0, 0], [0, 0, 0]] := by
+  decide +kernel
+
+/-- … and the block of the divergence of that gradient is the reference value -/
+example : unIota (2 * 2) 2 (fastDivCosLat idQ 2 2 2 1 (5 / 2) false
+      (fastCosLatGrad idQ 2 2 2 1 (5 / 2) false (iota 2 2 1 xQ)).1
+      (fastCosLatGrad idQ 2 2 2 1 (5 / 2) false (iota 2 2 1 xQ)).2)
+    = realDivCosLat idQ 2 2 (5 / 2) false (realCosLatGrad idQ 2 2 (5 / 2) false xQ).1
+        (realCosLatGrad idQ 2 2 (5 / 2) false xQ).2 :=
+  fastDivCosLat_fastCosLatGrad_iota idQ rfl 2 2 2 1 (by omega) (5 / 2) false false xQ xQ_shaped
+
+example : realDivCosLat idQ 2 2 (5 / 2) false (realCosLatGrad idQ 2 2 (5 / 2) false xQ).1
+      (realCosLatGrad idQ 2 2 (5 / 2) false xQ).2
+    = [[0, -32 / 225], [-12 / 25, -16 / 25], [-4 / 5, -24 / 25]] := by decide +kernel
+
+/-- the same on the junk array, both flags off -/
+example : unIota (2 * 2) 2 (fastDivCosLat idQ 2 2 2 1 (5 / 2) false
+      (fastCosLatGrad idQ 2 2 2 1 (5 / 2) false yQ).1 (fastCosLatGrad idQ 2 2 2 1 (5 / 2) false yQ).2)
+    = realDivCosLat idQ 2 2 (5 / 2) false (realCosLatGrad idQ 2 2 (5 / 2) false (unIota (2 * 2) 2 yQ)).1
+        (realCosLatGrad idQ 2 2 (5 / 2) false (unIota (2 * 2) 2 yQ)).2 :=
+  fastDivCosLat_fastCosLatGrad_block idQ rfl 2 2 2 1 (by omega) (5 / 2) false false yQ yQ_fast
+
+/-- every entry outside column `L`, and the zeros of row 1 / the padding, for the two-fold composite -/
+example : EqOff 2 (fastDivCosLat idQ 2 2 2 1 (5 / 2) false
+      (fastCosLatGrad idQ 2 2 2 1 (5 / 2) false (iota 2 2 1 xQ)).1
+      (fastCosLatGrad idQ 2 2 2 1 (5 / 2) false (iota 2 2 1 xQ)).2)
+    (iota 2 2 1 (realDivCosLat idQ 2 2 (5 / 2) false (realCosLatGrad idQ 2 2 (5 / 2) false xQ).1
+        (realCosLatGrad idQ 2 2 (5 / 2) false xQ).2)) :=
+  fastDivCosLat_fastCosLatGrad_iota_eqOff idQ rfl 2 2 2 1 (by omega) (5 / 2) false false xQ xQ_shaped
+
+def y3Q : List (List ℚ) := [[2, -1, 40], [5, 5, 50], [0, 7, -30], [1, 1, 60], [2, 3, 41], [-1, -2, -31]]
+theorem y3Q_fast : FastShaped 2 2 2 1 y3Q := ⟨rfl, by decide⟩
+
+/-- `y2Q` and `y3Q` differ in every entry of column `L = 2` and nowhere else -/
+theorem y2Q_eqOff_y3Q : EqOff 2 y2Q y3Q :=
+  EqOff.of_bounded 6 3 rfl rfl y2Q_fast.2 y3Q_fast.2 (by decide)
+
+/-- `fastDivCosLat_congr_eqOff` on arrays that are not `ι`-images: changing padding column `L` of the input
+ cannot change the output outside column `L` (here, as the next example shows, it changes nothing at all:
+ the weights that read column `L` are masked) -/
+example : EqOff 2 (fastDivCosLat idQ 2 2 2 1 (5 / 2) false yQ y2Q) (fastDivCosLat idQ 2 2 2 1 (5 / 2) false yQ y3Q) :=
+  fastDivCosLat_congr_eqOff idQ rfl 2 2 2 1 (by omega) (5 / 2) false yQ yQ y2Q y3Q yQ_fast yQ_fast y2Q_fast
+    y3Q_fast (EqOff.refl 2 yQ) y2Q_eqOff_y3Q
+
+example : fastDivCosLat idQ 2 2 2 1 (5 / 2) false yQ y3Q
+    = [[0, -8 / 15, 8 / 25], [0, 0, 0], [2, 12 / 5, 48 / 25], [-6 / 5, -8 / 5, -96 / 25],
+       [36 / 5, 36 / 5, 36 / 5], [-32 / 5, -32 / 5, -32 / 5]] := by decide +kernel
 
 /-! ### C09-2 instantiated: `base_shape_multiple = 3` gives the paddings `(pr, pc) = (2, 1)`,
 `(pn, pj) = (0, 1)` for `M = 2, L = 2, N = 3, J = 2` -/
